@@ -766,6 +766,13 @@ func (x *Exec) evalCall(fr *frame, st *State, n *ast.CallExpr, opts *evalOpts) V
 			alts = append(alts, mkAnd(mkEq(in, litBig(in.W(), big.NewInt(int64(k)))), T{fmt.Sprintf("(= ((_ extract %d %d) %s) #b1)", k, k, bbn.S), BoolSort}))
 		}
 		return Sc{T: mkOr(alts...)}
+	case "count":
+		// count(N): ghost counter of loop N - the number of iterations completed so far
+		k := int(arg(0).(Untyped).V.(*big.Int).Int64())
+		if v, ok := st.names[fmt.Sprintf("#count%d", k)]; ok {
+			return v
+		}
+		bail("count(%d): not inside (or after) loop %d", k, k)
 	case "iter":
 		// iter(N): the hidden counter of range loop N of the current function
 		k := int(arg(0).(Untyped).V.(*big.Int).Int64())
